@@ -5,13 +5,14 @@ from .mir import trace, origin_summary, callee_matches
 from .common import find_calls, one_call, call_outcomes, follow_value
 
 EXPLANATION = (
-    "Decides structural necessary conditions of C16 from MIR: (R1) every table of store::fs::tables::Tables (program-derived "
-    "set) is cleared for the namespace inside remove_replica's transaction or is on the exemption list (authors: store-global "
-    "keys); (R2) every key/bound used by those removals derives from the namespace argument and the namespace range ends at "
-    "the fixed-width successor or is unbounded; (R3) the open guard dominates the transaction and the actor closes before "
-    "removing; (R4) no storage result is discarded in remove_replica; (R5) the content-hash iterator ranges over the whole "
-    "records table of a snapshot taken after a flush and the GC task never maps an error to Continue. NOT decided: "
-    "byte-for-byte equality of neighbouring documents (redb trusted)."
+    'Decides structural necessary conditions of C16 from MIR: (R1) every table of store::fs::tables::Tables (program-'
+    "derived set) is cleared for the namespace inside remove_replica's transaction or is on the exemption list (authors: "
+    'store-global keys); (R2) every key/bound used by those removals derives from the namespace argument and the namespace '
+    'range ends at the fixed-width successor or is unbounded; (R3) the open guard dominates the transaction and the actor '
+    'closes before removing; (R4) no storage result is discarded in remove_replica; (R5) the content-hash iterator ranges '
+    'over the whole records table of a snapshot taken after a flush and the GC task never maps an error to Continue. (R6) '
+    "the API handler doc_drop evaluated: the store actor's drop_replica is reached for the requested document and success "
+    'is reported only if it succeeded. NOT decided: byte-for-byte equality of neighbouring documents (redb trusted).'
 )
 ASSUMPTIONS = ["redb tables are identified by their key/value types", "redb range semantics trusted"]
 
@@ -426,9 +427,17 @@ def r5(ctx):
     ctx.floor("C16.R5", 9)
 
 
+def r6(ctx):
+    """the API layer: a drop request reaches the store actor's drop for that document, and success is reported only if it succeeded"""
+    from . import apifw
+    apifw.check_forwarder(ctx, "C16.R6", "doc_drop", "DropRequest", ["drop_replica(req.doc_id)"], "Ok(DropResponse)", strict=False)
+    ctx.floor("C16.R6", 2)
+
+
 def run(ctx):
     ctx.run_rule("C16.R1", r1)
     ctx.run_rule("C16.R2", r2)
     ctx.run_rule("C16.R3", r3)
     ctx.run_rule("C16.R4", r4)
     ctx.run_rule("C16.R5", r5)
+    ctx.run_rule("C16.R6", r6)
